@@ -91,6 +91,65 @@ pub fn rcase() -> impl Strategy<Value = RCase> {
         })
 }
 
+/// The reinsertion working set has to leave room for progress: entries admitted by the reinsertion filter are
+/// written again whenever their block is reclaimed, so a set that (with per-entry page alignment) needs about as many
+/// blocks as the device can spare is re-written forever and no reclaim ever ends (wait() cannot return by
+/// construction, not by defect). Domain (DESIGN C09): at most half a block of reinsertion data - keys of the
+/// reinsertion set carry one-page values and the set is cut to half the entry pages of a block.
+fn effective_reinsert(case: &RCase) -> Vec<u8> {
+    let entry_pages = case.block_kib * 1024 / PAGE - 1;
+    let n = (entry_pages / 2).max(1);
+    case.reinsert.iter().copied().take(n).collect()
+}
+
+/// Structural condition of the known finding "stale entry after reuse": the stale version and the current version of
+/// the key were written to different blocks and the block write of the older version was still unfinished (or not yet
+/// issued, waiting for a clean block) when the block write of the newer version was issued - i.e. they belong to one
+/// write batch of the key's flusher that spans several blocks (a flusher commits one batch at a time, in order, and a
+/// key always goes to the same flusher, so across batches older versions reach the device first). Read from the
+/// simulated device's log with the independent format reader.
+fn versions_in_one_multi_block_batch(sim: &mut HybSim, index_size: usize, key: u64, stale: u64, current: u64) -> bool {
+    let log: Vec<LogRec> = sim.full_log().into_iter().map(|(_, r)| r).collect();
+    let mut of_stale: Vec<&LogRec> = vec![];
+    let mut of_current: Vec<&LogRec> = vec![];
+    for r in log.iter().filter(|r| r.kind == IoKind::Write) {
+        let Some(data) = r.data.as_ref() else { continue };
+        if let WriteKind::Data(entries) = classify_write(r.part, r.offset, data, index_size, None) {
+            for e in entries {
+                if e.key != Some(key) {
+                    continue;
+                }
+                if let Some(v) = e.value.as_ref() {
+                    if let Decoded::Valid { key: k2, version } = crate::hval::decode_value(v) {
+                        if k2 == key && version == stale {
+                            of_stale.push(r);
+                        }
+                        if k2 == key && version > stale && version <= current {
+                            of_current.push(r);
+                        }
+                    }
+                }
+            }
+        }
+    }
+    if std::env::var("VERIF_DEBUG_C09").is_ok() {
+        for r in &of_stale {
+            eprintln!("stale v{stale}: write #{} part {} off {} len {} issued {} done {:?}", r.seq, r.part, r.offset, r.len, r.issued_clock, r.completed_clock);
+        }
+        for r in &of_current {
+            eprintln!("current v{current}: write #{} part {} off {} len {} issued {} done {:?}", r.seq, r.part, r.offset, r.len, r.issued_clock, r.completed_clock);
+        }
+    }
+    of_stale.iter().any(|a| {
+        of_current.iter().any(|b| {
+            // the older version's block write had not completed (or had not even been issued) when the newer
+            // version's block write was issued: only the blocks of one batch are written in such an order
+            let a_done = a.completed_clock.unwrap_or(u64::MAX);
+        a_done > b.issued_clock
+        })
+    })
+}
+
 fn cfg_of(case: &RCase) -> HybCfg {
     let block_size = case.block_kib * 1024;
     HybCfg {
@@ -112,7 +171,7 @@ fn cfg_of(case: &RCase) -> HybCfg {
         buffer_pool_size: if case.buffer_blocks == 0 { case.flushers * (4 << 20) } else { case.flushers * case.buffer_blocks * block_size },
         submit_queue_threshold: 1 << 30,
         admission_reject: vec![],
-        reinsert: case.reinsert.clone(),
+        reinsert: effective_reinsert(case),
         indexer_shards: 4,
         invalid_ratio_picker: case.default_pickers,
         hold_io: true,
@@ -266,11 +325,10 @@ pub fn exec_c09(case: &RCase) -> CaseReport {
     let mut next_fresh = 100u64;
     let mut bytes_written = 0usize;
     let device = cfg.blocks * cfg.block_size;
-    let reinsert_keys: BTreeSet<u64> = case.reinsert.iter().map(|k| *k as u64).collect();
+    let reinsert_keys: BTreeSet<u64> = effective_reinsert(case).iter().map(|k| *k as u64).collect();
     // versions of reinsertion keys that were flushed (acknowledged by a drain + wait) and never deleted since
     let mut flushed_r: BTreeMap<u64, u64> = BTreeMap::new();
     let len_of = |pages: u8| (pages as usize).clamp(1, 3) * PAGE - ENTRY_OVERHEAD - 11;
-    let oversized_buffer = cfg.buffer_pool_size / cfg.flushers > 2 * cfg.block_size;
 
     let mut verify = |sim: &mut HybSim, model: &BTreeMap<u64, Option<(u64, usize)>>, flushed_r: &mut BTreeMap<u64, u64>, failures: &mut Vec<Failure>, ctx: &str| {
         sim.raw_evict_all();
@@ -300,7 +358,11 @@ pub fn exec_c09(case: &RCase) -> CaseReport {
                 (LookupOut::Hit { decoded: Decoded::Valid { key, version }, .. }, Some((cv, _))) if key == k && version == cv => {}
                 (other, cur) => failures.push(Failure::new(
                     match other {
-                        LookupOut::Hit { decoded: Decoded::Valid { key, .. }, .. } if key == k && oversized_buffer => "stale-entry-after-reuse+flush-buffer-larger-than-two-blocks",
+                        LookupOut::Hit { decoded: Decoded::Valid { key, version }, .. }
+                            if key == k && cur.map(|c| versions_in_one_multi_block_batch(sim, cfg.blob_index_size, *k, *version, c.0)).unwrap_or(false) =>
+                        {
+                            "stale-entry-after-reuse+both-versions-in-one-multi-block-batch"
+                        }
                         LookupOut::Hit { decoded: Decoded::Valid { key, .. }, .. } if key == k => "stale-entry-after-reuse",
                         LookupOut::Hit { .. } => "damaged-or-foreign-entry-after-reuse",
                         _ => "lookup-error-after-reuse",
@@ -330,6 +392,8 @@ pub fn exec_c09(case: &RCase) -> CaseReport {
         }
         match op {
             ROp::Insert { k, pages } => {
+                // reinsertion keys: one page (see effective_reinsert)
+                let pages = if reinsert_keys.contains(&(*k as u64)) { &1u8 } else { pages };
                 let len = len_of(*pages);
                 let v = sim.raw_insert(*k as u64, len);
                 model.insert(*k as u64, Some((v, len)));
@@ -476,7 +540,7 @@ pub fn check_c09(tier: Tier, seed: u64) -> i32 {
         "buffer and submit-queue limits are configured so that the documented shedding cannot trigger; cases where a shedding counter fired are discarded and counted".into(),
         "single OS thread: interleavings at await points and io completion orders are explored, not data races".into(),
     ];
-    let cases = tier.pick(6000, 200_000);
+    let cases = tier.pick(60_000, 1_500_000);
     check.max_shrink_iters = 400;
     check.run_random("random", cases, rcase, exec_c09);
     check.finish()
